@@ -16,6 +16,7 @@ package main
 
 import (
 	"bytes"
+	"encoding/json"
 	"errors"
 	"fmt"
 	"io"
@@ -28,6 +29,7 @@ import (
 	"sort"
 	"strings"
 	"sync"
+	"sync/atomic"
 	"time"
 
 	"rivaas.dev/app"
@@ -211,6 +213,14 @@ type Case struct {
 	C    Cfg
 	H    []Req
 	Conc int `json:",omitempty"` // >0: run the history on this many goroutines (thorough tier)
+	// Kind "N": concurrent content negotiation — G goroutines serve requests with different Accept-* headers for
+	// Millis milliseconds; every handler calls the negotiation helpers Iter times and compares each answer with the
+	// answer a fresh sequential call gives for its own headers
+	Kind   string `json:",omitempty"`
+	G      int    `json:",omitempty"`
+	Millis int    `json:",omitempty"`
+	Iter   int    `json:",omitempty"`
+	Detail string `json:",omitempty"` // first mismatch of a kind-N run (filled in by the run, ignored on replay)
 }
 
 // names the probe asks for: every parameter name of the table plus names no route declares
@@ -295,7 +305,7 @@ var (
 type probePanic struct{} // what a panicking probe handler panics with (expected, not a framework panic)
 
 // body of every probe handler, router and app level
-func handle(c *router.Context, hid int, presence int, bind func()) {
+func handle(c *router.Context, hid int, presence int, bind func() string) {
 	req := c.Request
 	if req == nil {
 		mu.Lock()
@@ -332,7 +342,12 @@ func handle(c *router.Context, hid int, presence int, bind func()) {
 		mu.Unlock()
 	}
 	if bind != nil {
-		bind()
+		// app level: what this handler binds (after a before-handler bound the same body and returned, and after any
+		// nested request bound its own) must be this request's own payload
+		bound := bind()
+		mu.Lock()
+		v.acc += "|bind:" + bound
+		mu.Unlock()
 	}
 	dirty(c, q.Dirty)
 	if c.Response != nil {
@@ -381,15 +396,38 @@ type payload struct {
 	B string `json:"b"`
 }
 
+func boundString(p payload, failed bool) string { return fmt.Sprintf("%d,%s,%v", p.A, p.B, failed) }
+
 func appHandler(hid int) app.HandlerFunc {
 	return func(c *app.Context) {
-		handle(c.Context, hid, len(c.Presence()), func() {
+		handle(c.Context, hid, len(c.Presence()), func() string {
 			if c.Request != nil && c.Request.Body != nil && c.Request.ContentLength > 0 {
 				var p payload
-				_ = c.BindOnly(&p)
+				err := c.BindOnly(&p)
+				return boundString(p, err != nil)
 			}
+			return ""
 		})
 	}
+}
+
+// appBefore is registered in front of every app route (like app.WithBefore): it binds the JSON body in its own
+// app.Context and returns, so the main handler binds the refilled body with another app.Context.
+func appBefore(c *app.Context) {
+	if c.Request != nil && c.Request.Body != nil && c.Request.ContentLength > 0 {
+		var p payload
+		_ = c.BindOnly(&p)
+	}
+}
+
+// expectedBind: what a handler must bind for this request (reference, computed from the case).
+func expectedBind(q Req) string {
+	if q.Body == "" {
+		return ""
+	}
+	var p payload
+	err := json.Unmarshal([]byte(q.Body), &p)
+	return boundString(p, err != nil)
 }
 
 func routerOpts(c Cfg) []router.Option {
@@ -423,11 +461,11 @@ func build(c Cfg) http.Handler {
 		if !active(d, c) {
 			continue
 		}
-		var h router.HandlerFunc
+		var h []router.HandlerFunc
 		if c.App {
-			h = a.WrapHandler(appHandler(d.hid))
+			h = []router.HandlerFunc{a.WrapHandler(appBefore), a.WrapHandler(appHandler(d.hid))}
 		} else {
-			h = routerHandler(d.hid)
+			h = []router.HandlerFunc{routerHandler(d.hid)}
 		}
 		if d.ver != "" {
 			var vr *router.VersionRouter
@@ -436,7 +474,7 @@ func build(c Cfg) http.Handler {
 			} else {
 				vr = r.Version(d.ver)
 			}
-			rt := vr.Handle(d.method, d.pattern, h)
+			rt := vr.Handle(d.method, d.pattern, h...)
 			if d.intParam != "" {
 				rt.WhereInt(d.intParam)
 			}
@@ -445,9 +483,9 @@ func build(c Cfg) http.Handler {
 		var rt interface{ WhereInt(string) *rroute.Route }
 		switch d.method {
 		case "GET":
-			rt = r.GET(d.pattern, h)
+			rt = r.GET(d.pattern, h...)
 		case "POST":
-			rt = r.POST(d.pattern, h)
+			rt = r.POST(d.pattern, h...)
 		}
 		if d.intParam != "" {
 			rt.WhereInt(d.intParam)
@@ -605,6 +643,109 @@ func drainPool() {
 	runtime.GC()
 }
 
+// ---------------------------------------------------------------- kind N: concurrent content negotiation
+
+type negSet struct{ accept, charset, encoding, language string }
+
+var negSets = []negSet{
+	{"application/json", "utf-8", "gzip", "en"},
+	{"text/html, application/json;q=0.8", "iso-8859-1;q=0.9, utf-8;q=0.1", "br;q=0.9, gzip;q=0.2", "de, en;q=0.7"},
+	{"text/plain;q=0.5, text/html", "iso-8859-1", "identity;q=0.5, zstd;q=0.7", "fr;q=0.9, de;q=0.1"},
+	{"*/*;q=0.1, text/plain", "utf-8;q=0.3, iso-8859-1;q=0.4", "gzip;q=0.1, identity;q=0.9", "en;q=0.2, fr;q=0.8"},
+	{"application/xml", "us-ascii", "deflate", "es"},
+	{"text/html;q=0.2, application/json;q=0.9", "utf-8;q=0.9, iso-8859-1;q=0.8", "br", "fr"},
+	{"text/*", "*;q=0.1, iso-8859-1", "gzip;q=0, br;q=0.3, identity;q=0.2", "de;q=0.3, en;q=0.4, fr;q=0.5"},
+	{"application/json;q=0.1, text/plain;q=0.9", "iso-8859-1;q=0.2, utf-8", "identity", "en-US, en;q=0.9"},
+}
+
+var negOffers = struct{ media, charset, encoding, language []string }{
+	[]string{"application/json", "text/html", "text/plain"}, []string{"utf-8", "iso-8859-1"}, []string{"gzip", "br", "identity"}, []string{"en", "de", "fr"}}
+
+func negRequest(i int) *http.Request {
+	st := negSets[i%len(negSets)]
+	req := httptest.NewRequest("GET", "http://h.test/neg", nil)
+	req.Header.Set("Accept", st.accept)
+	req.Header.Set("Accept-Charset", st.charset)
+	req.Header.Set("Accept-Encoding", st.encoding)
+	req.Header.Set("Accept-Language", st.language)
+	req.Header.Set("X-Set", fmt.Sprint(i%len(negSets)))
+	return req
+}
+
+// one round of the helpers; withAccepts: also the media-type helper (which pins an arena to the context)
+func negRound(c *router.Context, withAccepts bool) string {
+	out := c.AcceptsEncodings(negOffers.encoding...) + "|" + c.AcceptsLanguages(negOffers.language...) + "|" + c.AcceptsCharsets(negOffers.charset...)
+	if withAccepts {
+		out += "|" + c.Accepts(negOffers.media...)
+	}
+	return out
+}
+
+func runNegotiation(id string, cs Case) string {
+	// expectations: a fresh sequential call on a brand-new context per header set
+	expect := make([][2]string, len(negSets))
+	for i := range negSets {
+		expect[i][0] = negRound(router.NewContext(httptest.NewRecorder(), negRequest(i)), false)
+		expect[i][1] = negRound(router.NewContext(httptest.NewRecorder(), negRequest(i)), true)
+	}
+	var served, bad atomic.Int64
+	var first atomic.Value
+	r := router.MustNew()
+	r.GET("/neg", func(c *router.Context) {
+		var set int
+		_, _ = fmt.Sscanf(c.Request.Header.Get("X-Set"), "%d", &set)
+		for k := 0; k < cs.Iter; k++ {
+			// the first rounds without Accepts(): a context that has called it keeps its own arena
+			with := k >= cs.Iter/2
+			w := 0
+			if with {
+				w = 1
+			}
+			if got := negRound(c, with); got != expect[set][w] {
+				if bad.Add(1) == 1 {
+					first.Store(fmt.Sprintf("header set %d negotiated %q, a sequential call on a fresh context gives %q", set, got, expect[set][w]))
+				}
+			}
+		}
+		served.Add(1)
+		c.Response.WriteHeader(200)
+	})
+	runtime.GOMAXPROCS(4)
+	drainPool()
+	var wg sync.WaitGroup
+	deadline := time.Now().Add(time.Duration(cs.Millis) * time.Millisecond)
+	var pmu sync.Mutex
+	panicked := false
+	for g := 0; g < cs.G; g++ {
+		wg.Add(1)
+		go func(g int) {
+			defer wg.Done()
+			defer func() {
+				if rec := recover(); rec != nil {
+					pmu.Lock()
+					panicked = true
+					pmu.Unlock()
+				}
+			}()
+			for i := g; time.Now().Before(deadline); i += cs.G {
+				r.ServeHTTP(httptest.NewRecorder(), negRequest(i))
+			}
+		}(g)
+	}
+	wg.Wait()
+	l := hx.NewLine(id)
+	l.Tok("N").Nat(cs.G).Nat(cs.Iter).Sep()
+	if panicked {
+		l.Tok("P")
+		return l.String() + hx.Comment(cs)
+	}
+	l.I64(served.Load()).I64(bad.Load())
+	if f, ok := first.Load().(string); ok {
+		cs.Detail = f
+	}
+	return l.String() + hx.Comment(cs)
+}
+
 // historyTimeout bounds one history: a request that never completes is an observation (T), not a hang.
 const historyTimeout = 20 * time.Second
 
@@ -618,7 +759,11 @@ func runCase(id string, cs Case) string {
 				done <- l.String() + hx.Comment(cs)
 			}
 		}()
-		done <- runHistory(id, cs)
+		if cs.Kind == "N" {
+			done <- runNegotiation(id, cs)
+		} else {
+			done <- runHistory(id, cs)
+		}
 	}()
 	select {
 	case line := <-done:
@@ -770,7 +915,11 @@ func runHistory(id string, cs Case) string {
 			l.Tok("N").I64(1) // the chain ran: index advanced
 		}
 		ref := router.NewContext(httptest.NewRecorder(), newRequest(o.q, o.idx))
-		l.Str(acceptResults(ref))
+		refAcc := acceptResults(ref)
+		if cs.C.App {
+			refAcc += "|bind:" + expectedBind(o.q)
+		}
+		l.Str(refAcc)
 		l.Str(o.q.Accept)
 	}
 	l.Strs(probeNames)
@@ -856,6 +1005,7 @@ func genReq(r *hx.Rand, c Cfg) Req {
 		{"405-ten-params", hx.Pick(r, []string{"POST", "PUT", "DELETE"}), tenPath(r, "/p", 10)},
 		{"404", hx.Pick(r, []string{"GET", "POST", "DELETE"}), hx.Pick(r, []string{"/nope", "/d", "/c/abc", tenPath(r, "/p", 9)})},
 		{"k03a", "GET", tenPath(r, "/m/s", 9) + "/zz"},
+		{"non-origin-target", hx.Pick(r, []string{"OPTIONS", "GET"}), hx.Pick(r, []string{"*", "relative", "host.example:443"})},
 		{"ver-static", "GET", "/vs"},
 		{"ver-param", "GET", "/vd/" + v(r)},
 		{"ver-nine", "GET", tenPath(r, "/vq", 9)},
@@ -863,8 +1013,8 @@ func genReq(r *hx.Rand, c Cfg) Req {
 	}
 	x := hx.Pick(r, gs)
 	q := Req{Method: x.method, Path: x.path, Ver: ver, Accept: hx.Pick(r, accepts), Dirty: genDirty(r), Class: x.class}
-	if c.App && r.Chance(1, 2) {
-		q.Body = hx.Pick(r, []string{`{"a":1,"b":"x"}`, `{"a":2}`, `{"b":"y","c":{"d":1}}`})
+	if c.App && r.Chance(2, 3) {
+		q.Body = hx.Pick(r, []string{`{"a":1,"b":"x"}`, `{"a":2,"b":"y"}`, `{"a":9,"b":"z"}`, `{"a":2}`, `{"b":"y","c":{"d":1}}`})
 	}
 	return q
 }
@@ -923,6 +1073,12 @@ func witnesses() []Case {
 			{Method: "PUT", Path: "/p/1/2/3/4/5/6/7/8/9/10", Class: "405-ten-params"},
 			{Method: "GET", Path: "/d/7", Class: "param"},
 			{Method: "GET", Path: "/s/a", Class: "static"},
+		}},
+		// app: a before-handler binds and returns, another request binds in between, the main handler binds again
+		{C: Cfg{App: true}, H: []Req{
+			{Method: "GET", Path: "/d/7", Body: `{"a":1,"b":"x"}`, Nested: 1, Class: "param"},
+			{Method: "GET", Path: "/d/8", Body: `{"a":9,"b":"z"}`, Inner: true, Class: "param"},
+			{Method: "GET", Path: "/s/a", Body: `{"a":2,"b":"y"}`, Class: "static"},
 		}},
 		{C: Cfg{App: true, Versioning: true}, H: []Req{
 			{Method: "GET", Path: "/d/7", Body: `{"a":1,"b":"x"}`, Dirty: d, Class: "param"},
@@ -1019,6 +1175,25 @@ func main() {
 				cs.Conc = 8
 			}
 			emit(fmt.Sprintf("c03-%d-%d", a.Seed, i), cs)
+		}
+		nN, ms := 4, 120
+		if a.Tier == "thorough" {
+			nN, ms = 10, 400
+		}
+		if a.N < 50 {
+			nN = 0
+		}
+		for k := 0; k < nN; k++ {
+			cs := Case{Kind: "N", G: 32, Millis: ms, Iter: r.Range(6, 30)}
+			line := runCase(fmt.Sprintf("c03-%d-n%d", a.Seed, k), cs)
+			fmt.Fprintln(w, line)
+			st.Count("concurrent-negotiation-cases")
+			var served int
+			if i := strings.Index(line, "=> "); i >= 0 {
+				_, _ = fmt.Sscanf(line[i+3:], "%d", &served)
+			}
+			st.Counters["concurrent-negotiation-requests"] += served
+			st.Case(fmt.Sprintf("%+v#%d", cs, k), true)
 		}
 		st.Emit(w)
 	}
